@@ -39,7 +39,6 @@ func genVJP(t *rapid.T, ops []string, expand bool) VJPCase {
 	if !any {
 		p.Leaves[rapid.IntRange(0, len(p.Leaves)-1).Draw(t, "forcetracked")].Tracked = true
 	}
-	c := VJPCase{P: p}
 	in := make([]ref.T, len(p.Nodes[0].In))
 	for k, o := range p.Nodes[0].In {
 		in[k] = ref.FromVals(p.Leaves[o].Shape, p.Leaves[o].Vals)
@@ -48,20 +47,73 @@ func genVJP(t *rapid.T, ops []string, expand bool) VJPCase {
 	if err != nil {
 		t.Fatalf("generator produced an invalid call: %v (%+v)", err, p.Nodes[0])
 	}
+	// sometimes the result is passed through one or two further structural operations before
+	// it is weighted and back-propagated (the rule under test then runs inside a longer chain)
+	if rapid.IntRange(0, 3).Draw(t, "post") == 0 {
+		np := rapid.IntRange(1, 2).Draw(t, "npost")
+		for i := 0; i < np; i++ {
+			prev := len(p.Leaves) + len(p.Nodes) - 1
+			n := drawPostNode(t, r.Shape, prev)
+			nr, err := prog.ApplyRef(nil, n, []ref.T{r})
+			if err != nil || len(nr.E) == 0 {
+				break
+			}
+			p.Nodes = append(p.Nodes, n)
+			r = nr
+		}
+	}
+	c := VJPCase{P: p}
 	c.G = prog.DrawValsMode(t, len(r.E), 5, "std")
 	return c
+}
+
+// drawPostNode draws a structural operation applicable to a tensor of the given shape.
+func drawPostNode(t *rapid.T, shape []int, prev int) prog.Node {
+	rank := len(shape)
+	var opts []string
+	opts = append(opts, "scale", "reshape", "slice")
+	if rank < 6 {
+		opts = append(opts, "unsqueeze", "unsqueeze_last")
+	}
+	if rank >= 1 {
+		opts = append(opts, "flatten", "sumalong")
+	}
+	if rank >= 2 {
+		opts = append(opts, "transpose")
+	}
+	n := prog.Node{In: []int{prev}}
+	switch op := rapid.SampledFrom(opts).Draw(t, "postop"); op {
+	case "scale":
+		n.Op, n.F = "scale", 1.5
+	case "reshape":
+		n.Op, n.S = "reshape", prog.DrawFactorization(t, ref.Prod(shape), 6)
+	case "slice":
+		n.Op, n.R = "slice", prog.DrawIndex(t, shape)
+	case "unsqueeze":
+		n.Op, n.I = "unsqueeze", rapid.IntRange(0, rank).Draw(t, "postdim")
+	case "unsqueeze_last":
+		n.Op, n.I = "unsqueeze", rank
+	case "flatten":
+		n.Op, n.I = "flatten", rapid.IntRange(0, rank-1).Draw(t, "postdim")
+	case "sumalong":
+		n.Op, n.I = "sumalong", rapid.IntRange(0, rank-1).Draw(t, "postdim")
+	default:
+		n.Op = "transpose"
+	}
+	return n
 }
 
 func expansionFactor(src, dst []int) int { return ref.Prod(dst) / ref.Prod(src) }
 
 // checkVJP is the oracle of C02 and C07.
 func checkVJP(c VJPCase, property string) *Failure {
-	if len(c.P.Nodes) != 1 {
+	if len(c.P.Nodes) < 1 || len(c.P.Nodes) > 3 {
 		return failf("malformed case")
 	}
 	node := c.P.Nodes[0]
 	nl := len(c.P.Leaves)
-	seed := make([]bool, nl+1)
+	last := nl + len(c.P.Nodes) - 1
+	seed := make([]bool, last+1)
 	for i, l := range c.P.Leaves {
 		seed[i] = l.Tracked
 	}
@@ -73,7 +125,8 @@ func checkVJP(c VJPCase, property string) *Failure {
 		evid.Discard("near_kink")
 		return nil
 	}
-	root := vals[nl]
+	root := vals[last]
+	opResult := vals[nl]
 	if len(c.G) != len(root.E) {
 		return failf("malformed case: %d weights for %d result elements", len(c.G), len(root.E))
 	}
@@ -94,7 +147,7 @@ func checkVJP(c VJPCase, property string) *Failure {
 		if err != nil {
 			return failf("%s rejected valid arguments: %v", node.Op, err)
 		}
-		y := lv[nl]
+		y := lv[last]
 		ys, yv, err := lib.Read(y)
 		if err != nil {
 			return failf("%s result unreadable: %v", node.Op, err)
@@ -152,7 +205,7 @@ func checkVJP(c VJPCase, property string) *Failure {
 				if avgVals == nil {
 					avgVals, avgSlot, _, _ = prog.RunRef(c.P, seed, true)
 				}
-				aw, asc := prog.Adjoint(avgVals[nl], w, avgSlot[i], len(l.Vals))
+				aw, asc := prog.Adjoint(avgVals[last], w, avgSlot[i], len(l.Vals))
 				match := true
 				for k := range gv {
 					if !closeTo(gv[k], aw[k], asc[k]) {
@@ -173,7 +226,10 @@ func checkVJP(c VJPCase, property string) *Failure {
 	}
 	evid.Eval()
 	evid.Class(property + ".op=" + node.Op)
-	classifyVJP(c, property, root)
+	if len(c.P.Nodes) > 1 {
+		evid.Class(property + ".followed_by_structural_ops")
+	}
+	classifyVJP(c, property, opResult)
 	return nil
 }
 
